@@ -236,6 +236,12 @@ def run(ctx):
     qnt1(ctx, lib, roles)
     grpq1(ctx, lib)
     lbl1(ctx, lib, ins)
+    from . import counting
+    counting.rules(ctx)
+    counting.chr1(ctx, lib)
+    from . import memo
+    memo.rules(ctx)
+    memo.check(ctx, lib)
     # PRC-1/2 (shared with C02): a quantifier applied to a repeated substring binds to the whole of it
     from .C02 import prc1, prc2
     ctx.rule("PRC-1", "precedence table: Alternation < Concatenation <= Literal < Repetition")
